@@ -45,3 +45,12 @@ Theorem C16_page_size_irrelevant : forall P1 P2 txs st1 st2, 0 < P1 -> 0 < P2 ->
   EngineAbs.abs_db st1 = EngineAbs.abs_db st2.
 Proof. exact EngineCorollaries.page_size_irrelevant. Qed.
 Print Assumptions C16_page_size_irrelevant.
+
+(* ---- strict mode on the engine's files: the model of DB::check accepts the complete image of every state a history reaches
+   (quoted in full as C05_file_checker_accepts_every_engine_file); here the freshly initialised file, at every page size ---- *)
+From Jamm Require Bytes Codec Tree Meta CheckM Engine EngineFileImage.
+Theorem C16_strict_accepts_fresh_file : forall (pad : N -> Byte.byte) (P : N), Meta.meta_end <= P -> 4 * P < 2 ^ 64 ->
+  let F := EngineFileImage.file_image pad P (Engine.init_db P) (Meta.encode_meta_page P (Meta.init_meta P 1)) in
+  Tree.inv_check (Codec.reader_of F) P = Codec.Ok tt /\ CheckM.check_m (Codec.reader_of F) P = Codec.Ok tt.
+Proof. exact EngineFileImage.init_file_checked. Qed.
+Print Assumptions C16_strict_accepts_fresh_file.
